@@ -121,8 +121,8 @@ def main(chk):
     configs = []
     plan_ = (("default", "default", True, 2, 4), ("orphan", "orphan", True, 2, 4), ("all-notnull", "all", False, 2, 3),
              ("default-notnull", "default", False, 2, 3), ("orphan-notnull", "orphan", False, 2, 3)) if q else \
-            (("default-2x3", "default", True, 3, 4), ("orphan-2x3", "orphan", True, 3, 4), ("default-2x2", "default", True, 2, 5),
-             ("all-notnull-2x3", "all", False, 3, 4), ("default-notnull-2x2", "default", False, 2, 4), ("orphan-notnull-2x2", "orphan", False, 2, 5))
+            (("default-2x3", "default", True, 3, 4), ("orphan-2x2", "orphan", True, 2, 5), ("all-notnull-2x2", "all", False, 2, 4),
+             ("default-notnull-2x2", "default", False, 2, 4), ("orphan-notnull-2x2", "orphan", False, 2, 4))
     for name, casc, nullable, n_, dd in plan_:
         configs.append(dict(name=name, casc=casc, consts=oc.consts(casc, n_, dd, acts=acts, nullable=nullable), invs=["TypeOK", "FkSound"], maxlen=dd,
                             nrandom=100 if q else 1000))
